@@ -81,6 +81,5 @@ class SMTWTP(Adapter):
 
     def project(self, td, r, inst):
         t = float(td["current_time"].reshape(td.shape[0], -1)[r, 0]) * T_UNIT
-        assert abs(t - round(t)) < 1e-6
         return {"cur": int(td["current_job"].reshape(td.shape[0], -1)[r, 0]),
-                "time": int(round(t))}
+                "time": int(round(t)) if abs(t - round(t)) < 1e-6 else -999999}     # inexact bookkeeping shows up as drift
